@@ -1,6 +1,6 @@
 (* C07  Spatial fields respect physical bounds and phase equilibrium (1D / 0D step models). *)
 From Coq Require Import Reals ZArith List Bool.
-From Snow Require Import Num NumR Sn1D SnProofs Sn2D Sn2DProofs Sn2DMax SnSolidMax.
+From Snow Require Import Num NumR Sn1D SnProofs Sn2D Sn2DProofs Sn2DMax SnSolidMax Sn2DIce.
 Import ListNotations.
 Local Open Scope R_scope.
 
@@ -131,3 +131,26 @@ Theorem C07_0D_solidification_run_bounds :
   forall shelf s, inv0 P lo hi s -> List.Forall (fun Tsh => lo <= Tsh <= hi) shelf -> inv0 P lo hi (fold_left (step0 P area) shelf s).
 Proof. intros. apply zeroD_solid_run_bounds; assumption. Qed.
 Print Assumptions C07_0D_solidification_run_bounds.
+
+(* 2D solidification stage, ANY step (any grid and ice field, any shelf temperature, any evaporative flux, inside or outside
+   the vacuum window, in-place or simultaneous sweep): the reported ice field is related point by point to the new
+   temperature field - at or above T_eq_l no ice, below it a positive ice fraction on the liquidus, everywhere below the
+   water mass fraction m_w/(m_w+m_s) *)
+Theorem C07_2D_ice_field_on_liquidus :
+  forall (P : @p2d R), 0 < s_mw P -> 0 <= s_ms P -> 0 < s_ms P * (s_kf P / s_Ms P) ->
+  s_Teql P = s_Tm P - s_ms P * (s_kf P / s_Ms P) / s_mw P ->
+  forall (Nz Nr : nat) (rr : list R) inplace visf t tstart tdur dHe (g w : @grid R) Tsh fluxes,
+  let r := solid_step2_t Rops P Nz Nr rr inplace visf t tstart tdur dHe g w Tsh fluxes in
+  Forall2 (Forall2 (fun T wi =>
+     0 <= wi < s_mw P / (s_mw P + s_ms P) /\ (s_Teql P <= T -> wi = 0)
+     /\ (T < s_Teql P -> 0 < wi /\ wi = (s_mw P - s_ms P * (s_kf P / s_Ms P) / (s_Tm P - T)) / (s_mw P + s_ms P))))
+    (fst r) (snd r).
+Proof. intros. apply solid_step2_t_ice_field; assumption. Qed.
+Print Assumptions C07_2D_ice_field_on_liquidus.
+
+(* its hypotheses are satisfiable (5 % solute) and both branches occur *)
+Example C07_2D_ice_field_nonvacuous :
+  let P := MkP2 1 1 1 1 1 1 1  1 1 1 0 1 1  1 2 1 1 1 19 1  0 (- (2 / 19)) in
+  0 < s_mw P /\ 0 <= s_ms P /\ 0 < s_ms P * (s_kf P / s_Ms P) /\ s_Teql P = s_Tm P - s_ms P * (s_kf P / s_Ms P) / s_mw P
+  /\ ice2 Rops P (-1) = 17 / 20 /\ ice2 Rops P (- (2 / 19)) = 0.
+Proof. exact ice2_nonvacuous. Qed.
